@@ -294,6 +294,28 @@ theorem like_kept_spec (c : Cont) (T : List Int) (hs : T.Pairwise (· < ·)) :
       decide (c.start ≤ p.1 - (likeDeltas T).headD 0) && decide (p.1 < c.stop) :=
   likeKept_spec' c T hs
 
+/-- Windows lie within the source span — for the code as it is this holds whenever no window is longer
+    than the first one (constant reference period, or a frame rate that only goes up); the complementary
+    class is finding F9. -/
+theorem like_within_span (c : Cont) (T : List Int) (hs : T.Pairwise (· < ·))
+    (hδ : ∀ p ∈ T.zip (likeDeltas T), p.2 ≤ (likeDeltas T).headD 0) :
+    ∀ p ∈ likeKept false c T, c.start ≤ p.1 - p.2 ∧ p.1 < c.stop :=
+  like_within_span' c T hs hδ
+
+/-- ext: the proposed repair of F9 (`searchsorted(T - δ, start)`, `pw = true`) keeps exactly the
+    reference samples whose OWN window lies inside the source span (window starts in order). -/
+theorem like_repaired_kept_spec (c : Cont) (T : List Int) (hs : T.Pairwise (· < ·))
+    (hw : (T.zip (likeDeltas T)).Pairwise (fun a b => a.1 - a.2 ≤ b.1 - b.2)) :
+    likeKept true c T = (T.zip (likeDeltas T)).filter fun p =>
+      decide (c.start ≤ p.1 - p.2) && decide (p.1 < c.stop) :=
+  likeKept_repaired' c T hs hw
+
+/-- Non-vacuity of the hypotheses of the two theorems above. -/
+example : ∀ p ∈ [0, 20, 40, 85, 95, 105].zip (likeDeltas [0, 20, 40, 85, 95, 105]),
+    p.2 ≤ (likeDeltas [0, 20, 40, 85, 95, 105]).headD 0 := by decide
+example : ([0, 10, 20, 50, 80, 110].zip (likeDeltas [0, 10, 20, 50, 80, 110])).Pairwise
+    (fun a b => a.1 - a.2 ≤ b.1 - b.2) := by decide
+
 /-- Closed form of the sequential change-point repair (`delta_time[i + 1] = delta_time[i + 2]` for
     every `i` with `d[i] < d[i+1]`, abandoned at the first `IndexError`): a period longer than its
     predecessor is replaced by its successor when there is one; every other period is unchanged. -/
